@@ -29,7 +29,8 @@
 (***************************************************************************)
 EXTENDS Naturals, Sequences, FiniteSets, TLC
 
-Empty == [ref |-> "", tl |-> FALSE, ts |-> <<>>, nul |-> FALSE, en |-> <<>>, one |-> <<>>, any |-> <<>>, all |-> <<>>, fmt |-> "", props |-> FALSE]
+\* df: the schema declares a `default` (a value of its type: "a" for strings and string enums, 1 for integers, a date for dates)
+Empty == [ref |-> "", tl |-> FALSE, ts |-> <<>>, nul |-> FALSE, en |-> <<>>, one |-> <<>>, any |-> <<>>, all |-> <<>>, fmt |-> "", props |-> FALSE, df |-> FALSE]
 Ref(n) == [Empty EXCEPT !.ref = n]
 T(t)   == [Empty EXCEPT !.ts = <<t>>]
 NullS  == T("null")
@@ -52,7 +53,7 @@ Norm(s) ==
     ELSE c
 
 \* ------------------------------------------------------------------ property_from_data
-D(k, p) == [k |-> k, p |-> p, m |-> <<>>, v |-> <<>>]
+D(k, p) == [k |-> k, p |-> p, m |-> <<>>, v |-> <<>>, df |-> FALSE]          \* df: the built property carries a default
 RECURSIVE Flatten(_)
 Flatten(ds) == IF ds = <<>> THEN <<>> ELSE (IF Head(ds).k = "union" THEN Head(ds).m ELSE <<Head(ds)>>) \o Flatten(Tail(ds))
 Scalar(s, t) == ~s.tl /\ s.ts = <<t>>
@@ -67,10 +68,12 @@ BuildModel(s, p) ==
   IN IF "E" \in refs THEN D("err", <<>>)                                                    \* Cannot take allOf a non-object
      ELSE [D("model", p) EXCEPT !.v = SelectSeq(<<"M", "N", "D", "props">>, LAMBDA x : x \in refs \/ (x = "props" /\ inl))]
 RECURSIVE Build(_, _)
+\* a union takes the default of ITS OWN schema (converted by the first member that accepts it); the defaults of its members are never used
+NoDf(d) == [d EXCEPT !.df = FALSE]
 BuildUnion(s, p) ==
   LET tld == IF s.tl THEN [i \in 1..Len(s.ts) |-> [s EXCEPT !.tl = FALSE, !.ts = <<s.ts[i]>>]] ELSE <<>>
       mem == s.any \o s.one \o tld
-      subs == [i \in 1..Len(mem) |-> Build(mem[i], Append(p, i - 1))]
+      subs == [i \in 1..Len(mem) |-> NoDf(Build(mem[i], Append(p, i - 1)))]
   IN IF \E i \in 1..Len(subs) : subs[i].k = "err" THEN D("err", <<>>) ELSE [D("union", p) EXCEPT !.m = Flatten(subs)]
 BuildEnum(s, p) ==
   LET nn == NonNull(s.en) IN
@@ -78,7 +81,7 @@ BuildEnum(s, p) ==
   ELSE IF Len(nn) < Len(s.en)
     THEN BuildUnion([s EXCEPT !.one = <<NullS, [s EXCEPT !.en = nn]>>, !.en = <<>>, !.tl = FALSE, !.ts = <<>>], p)   \* the copy still carries s's own oneOf and type; the outer type is cleared
     ELSE [D("enum", p) EXCEPT !.v = nn]
-Build(s, p) ==
+Build0(s, p) ==
   IF s.ref # "" THEN [D("ref", p) EXCEPT !.v = <<s.ref>>]
   ELSE LET sub == s.all \o s.any \o s.one IN
     IF Len(sub) = 1 /\ sub[1].ref # "" /\ ~s.props THEN [D("ref", p) EXCEPT !.v = <<sub[1].ref>>]      \* a wrapper with properties of its own is a model
@@ -92,6 +95,9 @@ Build(s, p) ==
     ELSE IF Scalar(s, "array") THEN D("list", p)
     ELSE IF Scalar(s, "object") \/ s.all # <<>> \/ (s.ts = <<>> /\ s.props) THEN BuildModel(s, p)
     ELSE D("any", p)
+\* kinds whose build keeps the declared default (arrays and `type: null` drop it, a model refuses it)
+DfKinds == {"str", "date", "int", "num", "bool", "enum", "union", "any"}
+Build(s, p) == LET r == Build0(s, p) IN IF s.ref = "" /\ s.df /\ r.k \in DfKinds THEN [r EXCEPT !.df = TRUE] ELSE r
 Outcome(s) == Build(Norm(s), <<>>)
 
 \* ------------------------------------------------------------------ the rewrite system
@@ -100,14 +106,14 @@ Top(s) ==
   IF s.ref # "" THEN {[Empty EXCEPT !.all = <<s>>], [Empty EXCEPT !.one = <<s>>], [Empty EXCEPT !.any = <<s>>]}                          \* W
   ELSE (IF s.nul /\ ~s.tl /\ s.ts # <<>> THEN {[s EXCEPT !.nul = FALSE, !.tl = TRUE, !.ts = <<s.ts[1], "null">>]} ELSE {})               \* N1
     \cup (IF ~s.nul /\ s.tl /\ Len(s.ts) = 2 /\ "null" \in Range(s.ts) /\ s.ts[1] # s.ts[2] /\ s.en = <<>> /\ NoComp(s)
-            THEN {[Empty EXCEPT !.one = [i \in 1..2 |-> IF s.ts[i] = "null" THEN NullS ELSE [s EXCEPT !.tl = FALSE, !.ts = <<s.ts[i]>>]]]} ELSE {})        \* N2 (members in the order of the type list)
+            THEN {[Empty EXCEPT !.df = s.df, !.one = [i \in 1..2 |-> IF s.ts[i] = "null" THEN NullS ELSE [s EXCEPT !.tl = FALSE, !.ts = <<s.ts[i]>>, !.df = FALSE]]]} ELSE {})        \* N2 (members in the order of the type list; the default stays outside)
     \cup (IF s.nul /\ s.ts = <<>> /\ s.one # <<>> THEN {[s EXCEPT !.nul = FALSE, !.one = Append(@, NullS)]} ELSE {})                     \* N3
     \cup (IF s.nul /\ s.ts = <<>> /\ s.one = <<>> /\ s.any # <<>> THEN {[s EXCEPT !.nul = FALSE, !.any = Append(@, NullS)]} ELSE {})     \* N3
     \cup (IF s.nul /\ s.ts = <<>> /\ s.one = <<>> /\ s.any = <<>> /\ s.all # <<>>
             THEN {[s EXCEPT !.nul = FALSE, !.one = <<NullS, [Empty EXCEPT !.all = s.all]>>, !.all = <<>>]} ELSE {})                      \* N4
     \cup (IF ~s.nul /\ "NULL" \in Range(s.en) /\ NonNull(s.en) # <<>> /\ NoComp(s)
             THEN LET nt == SelectSeq(s.ts, LAMBDA t : t # "null") IN
-                 {[Empty EXCEPT !.one = <<NullS, [s EXCEPT !.en = NonNull(s.en), !.ts = nt, !.tl = (Len(nt) > 1)]>>]} ELSE {})            \* E1
+                 {[Empty EXCEPT !.df = s.df, !.one = <<NullS, [s EXCEPT !.en = NonNull(s.en), !.ts = nt, !.tl = (Len(nt) > 1), !.df = FALSE]>>]} ELSE {})            \* E1 (the default stays outside)
 \* a reference that is already the only member of a wrapper is wrapped again only when DoubleWrap is set (wrapper of a wrapper)
 CONSTANTS MaxSteps, DoubleWrap
 PureWrapper(s) == s.ref = "" /\ Len(s.all \o s.any \o s.one) = 1 /\ (s.all \o s.any \o s.one)[1].ref # ""
@@ -127,7 +133,11 @@ OneOf(q) == [Empty EXCEPT !.one = q]
 AnyOf(q) == [Empty EXCEPT !.any = q]
 AllOf(q) == [Empty EXCEPT !.all = q]
 Inline == [Empty EXCEPT !.props = TRUE]
+Df(s) == [s EXCEPT !.df = TRUE]
 BaseTerms ==
+  {Df(Nul(T("string"))), Df(Nul(T("integer"))), Df([Empty EXCEPT !.tl = TRUE, !.ts = <<"string", "null">>]), Df([Empty EXCEPT !.tl = TRUE, !.ts = <<"null", "integer">>]),
+   Df(En(T("string"), <<"a", "b", "NULL">>)), Df(En(Empty, <<"a", "b", "NULL">>)), Df(Nul(En(T("string"), <<"a", "b">>))), Df(En(T("integer"), <<"i1", "i2", "NULL">>)),
+   Df(Nul([T("string") EXCEPT !.fmt = "date"])), Df(Nul(En(T("string"), <<"a", "b", "NULL">>)))} \cup
   {Nul(T(t)) : t \in {"string", "integer", "number", "boolean", "array"}} \cup {Nul(Obj), Nul([T("string") EXCEPT !.fmt = "date"])}
   \cup {[Obj EXCEPT !.tl = TRUE, !.ts = <<"null", "object">>], [Empty EXCEPT !.tl = TRUE, !.ts = <<"null", "string">>, !.fmt = "date"], [Empty EXCEPT !.tl = TRUE, !.ts = <<"null", "array">>],
         [Empty EXCEPT !.tl = TRUE, !.ts = <<"object", "null">>, !.props = TRUE]}            \* 3.1 type lists written with null first / last
